@@ -52,8 +52,8 @@ def replay_harness(ctx, casefile, toks):
     return 1, "no replay for this kind"
 
 
-OPN = {1: 3, 10: 3, 2: 2, 3: 2, 5: 2, 4: 5, 6: 3, 8: 4, 9: 1, 11: 3}
-ST = {0: "runnable?", 1: "waiting-for-direct", 2: "in-OpenStream(conn %d)", 3: "in-dialPeer", 4: "OK(conn %d)", 5: "ERR(%d)"}
+OPN = {1: 3, 10: 3, 2: 2, 3: 2, 5: 2, 4: 5, 6: 3, 8: 4, 9: 1, 11: 3, 12: 4}
+ST = {6: "Connect-returned-nil", 0: "runnable?", 1: "waiting-for-direct", 2: "in-OpenStream(conn %d)", 3: "in-dialPeer", 4: "OK(conn %d)", 5: "ERR(%d)"}
 ERR = {1: "ErrNoConn", 2: "ErrLimitedConn", 3: "ctx", 4: "open-failed", 5: "ErrNoAddresses", 6: "ErrNoGoodAddresses",
        7: "ErrAllDialsFailed", 8: "max-dial-attempts"}
 
@@ -105,6 +105,8 @@ def op_str(op):
         return "peer addrs := %s" % ["%d:%s" % (a // 4, {0: "direct", 1: "relay", 2: "notransport", 3: "dnsaddr"}.get(a % 4, "?")) for a in op[2:]]
     if c == 8:
         return "dial on addr %d returns %s" % (op[1], ("conn(limited=%d)" % op[3]) if op[2] else "error")
+    if c == 12:
+        return "BasicHost.Connect(allow_limited=%d force_direct=%d no_dial=%d)" % (op[1], op[2], op[3])
     if c == 11:
         return "Conn.NewStream on conn %d (allow_limited=%d)" % (op[1], op[2])
     if c == 9:
@@ -162,7 +164,8 @@ CLAUSES = {1: "a call returned a connection it must not get (stream over a limit
            4: "a call whose context ended while waiting did not fail",
            5: "Connectedness answer wrong (only limited conns must give Limited; Connected needs a non-limited conn)",
            6: "a force-direct dial was handed a relay address",
-           9: "malformed observation"}
+           9: "a NewStream call was answered ErrLimitedConn although no direct connection had just arrived (it must wait instead)",
+           10: "a force-direct BasicHost.Connect reported success although no connection over a non-proxy transport exists"}
 
 
 def what(tag, toks, d):
